@@ -23,6 +23,10 @@ type CrashScenario struct {
 	Victim   world.Op   `json:"victim"`
 	Followup []world.Op `json:"followup"`
 	Errors   bool       `json:"errors"`
+	// HTTP: every operation goes through the HTTP handler with hand-built JSON (C20: how faults are reported)
+	HTTP bool `json:"http"`
+	// NoCrash: only the error mode (a failing call), no process kills
+	NoCrash bool `json:"nocrash"`
 }
 
 func init() { commands["crash"] = cmdCrash }
@@ -41,10 +45,11 @@ func runCrash(scn CrashScenario, tmpl, dir string, tr int, seed int64, mode stri
 	info := crashRun{Tr: tr, Scenario: scn.Name, Mode: mode, K: k}
 	os.RemoveAll(dir)
 	defer os.RemoveAll(dir)
-	w, err := world.New(world.Options{Dir: dir, FeePpk: scn.Fee, FeeReserve: scn.Policy, Seed: seed, TemplateDir: tmpl})
+	w, err := world.New(world.Options{Dir: dir, FeePpk: scn.Fee, FeeReserve: scn.Policy, Seed: seed, TemplateDir: tmpl, WithServer: scn.HTTP})
 	if err != nil {
 		return nil, info, err
 	}
+	w.ViaHTTP = scn.HTTP
 	w.Tr = tr
 	w.EmitInit(map[string]any{"fee": int(scn.Fee), "mpp": false, "policy": scn.Policy, "scenario": scn.Name, "mode": mode, "k": k,
 		"limits": map[string]any{"maxbal": 0, "maxmint": 0, "maxmelt": 0}})
@@ -152,8 +157,10 @@ func cmdCrash(args []string) int {
 		runs = append(runs, info)
 		all = append(all, evs...)
 		for k := 0; k < len(info.Calls); k++ {
-			tr++
-			jobs = append(jobs, job{scn, "crash", k, tr})
+			if !scn.NoCrash {
+				tr++
+				jobs = append(jobs, job{scn, "crash", k, tr})
+			}
 			if scn.Errors {
 				tr++
 				jobs = append(jobs, job{scn, "error", k, tr})
